@@ -8,7 +8,11 @@ mkdir -p .build/bin evidence replays
 go build -o .build/bin/vinst ./vinst
 for d in props/*/; do
   id=$(basename $d); ID=$id
-  if [ -f $d/INSTRUMENT ]; then
+  if [ -f $d/PARTS ]; then
+    .build/bin/vinst -repo /repo -out .build/inst-$id -variant $id >/dev/null
+    for part in $(cat $d/PARTS); do build go build -tags "verif verif$id" -overlay .build/inst-$id/overlay.json -o .build/bin/$id-$part ./props/$part; done
+    build go build -o .build/bin/$id ./$d
+  elif [ -f $d/INSTRUMENT ]; then
     v=$(cat $d/INSTRUMENT)
     [ -f .build/inst-$v/overlay.json ] || .build/bin/vinst -repo /repo -out .build/inst-$v -variant $v >/dev/null
     build go build -tags verif -overlay .build/inst-$v/overlay.json -o .build/bin/$id ./$d
